@@ -394,6 +394,9 @@ func runProperty(P *Program, pf *PropFile, findings *FindingsFile, timeout int, 
 		if i := strings.Index(p, "/"); i > 0 && failedFn[p[:i]] {
 			continue // already reported as contract-binding / outside-subset
 		}
+		if libraryPre(p) {
+			continue // whether a library helper is still called is not part of any contract
+		}
 		if !generated[baseName(p)] {
 			violation(p, "pinned obligation is no longer generated (function, clause or loop disappeared)", map[string]interface{}{}, false)
 		}
@@ -572,7 +575,7 @@ func cmdPin(args []string) int {
 				if o.Safety || o.Kind == "smoke" || o.Kind == "canary" || o.Kind == "finding" {
 					continue
 				}
-				if matchAny(pf.Obligations, o.Name) {
+				if matchAny(pf.Obligations, o.Name) && !libraryPre(o.Name) {
 					bn := baseName(o.Name)
 					dup := false
 					for _, x := range names {
@@ -593,6 +596,14 @@ func cmdPin(args []string) int {
 		fmt.Printf("%s: pinned %d contract-clause obligations\n", id, len(names))
 	}
 	return 0
+}
+
+var pikePreRe = regexp.MustCompile(`/pre:(cache|server|location|compress|upstream|util|store|config)\.`)
+
+// libraryPre: a precondition obligation of a library callee. Such obligations are checked when
+// generated but never pinned: replacing one library helper by another is not a property change.
+func libraryPre(name string) bool {
+	return strings.Contains(name, "/pre:") && !pikePreRe.MatchString(name)
 }
 
 func cmdSelftest(args []string) int { return 2 }
